@@ -16,6 +16,11 @@ type freshObj struct {
 	heap  string
 	site  interface{}
 	inner provSet // objects possibly referenced from its content
+	// a range object stands for every object allocated by the earlier iterations of a loop:
+	// addresses in [lo, hi), in any of the listed heaps
+	isRange bool
+	lo, hi  string
+	rheaps  []string
 }
 
 type provSet map[*freshObj]struct{}
@@ -204,6 +209,7 @@ type Exec struct {
 	pure      map[*ssa.Function]bool
 	nonneg    map[string]bool // pointer terms known to be >= 0 (not allocated by this activation)
 	topFn     *ssa.Function
+	nrange    int
 	writable  map[string][]string // heap -> addresses of pre-existing objects the top function may write (writes clauses)
 }
 
